@@ -204,7 +204,7 @@ class VariantAddAny(VariantAdd):
 
         def sibling(E_, key, tag):
             m0 = len(E_.path.effects)
-            ev, ef = _variant(E_, ci, "sibling%d" % len(siblings), symbolic=("id", "uid"))
+            ev, ef = _variant(E_, ci, "sibling%d" % len(siblings))        # every attribute of a ghost sibling is symbolic
             if pf is not None:
                 ev.fields["parent"] = cont
             del E_.path.effects[m0:]
@@ -242,6 +242,77 @@ class VariantAddAny(VariantAdd):
     def native_eval(self, inputs):
         nat, cl = VariantAdd.native_eval(VariantAdd(self.src, self.T, self.container, 1), inputs)
         return nat, cl
+
+
+class VariantsWriteAny(Contract):
+    """composeinfo Variants.serialize with ANY number of top-level variants (table of unbounded size; witness rule, the callees validate() and
+    Variant.serialize are recorded -- their own contracts): the container is validated first, a fresh 'variants' section is created, and the
+    ARBITRARY top-level variant is written through its own writer into exactly that section -- so no variant, however many there are and
+    wherever it sorts, is skipped or written elsewhere (C01/C06: its writer validates it and its subtree)."""
+    name = "productmd.composeinfo.Variants.serialize[any number of top-level variants]"
+    key = "ser:composeinfo.Variants:any"
+
+    def __init__(self, src, T):
+        self.src, self.T = src, T
+
+    def setup(self, E):
+        from pyvc.anycoll import AnyDict
+        ci = E.instantiate(("composeinfo", "ComposeInfo"))
+        cont = ci.fields["variants"]
+        made = []
+
+        def top(E_, key, tag):
+            m0 = len(E_.path.effects)
+            v, f = _variant(E_, ci, "top%d" % len(made))          # id, uid, name and type symbolic
+            del E_.path.effects[m0:]
+            made.append(v)
+            return v
+        table = AnyDict("variants", top)
+        cont.fields["variants"] = table
+        calls = []
+
+        def mk(n):
+            def summ(E_, obj, args, kwargs):
+                calls.append((n, obj, list(args)))
+                return None
+            return summ
+        self._stubs = [(("composeinfo", "Variants"), "validate"), (("composeinfo", "Variant"), "serialize")]
+        for k in self._stubs:
+            E.summaries[k] = mk(k[1])
+        return {"cont": cont, "table": table, "calls": calls, "data": E.models.new_dict("data"), "mark": len(E.path.effects)}
+
+    def call(self, E, st):
+        try:
+            return E.call(E.getattr_(st["cont"], "serialize"), [st["data"]])
+        finally:
+            for k in self._stubs:
+                E.summaries.pop(k, None)
+
+    def post(self, E, st, out):
+        if out.kind == "raise":
+            return {"writer_does_not_fail_by_itself": False}
+        wit = [(kind, x) for kind, c, x in getattr(E.path, "witnesses", []) if c is st["table"]]
+        calls = st["calls"]
+        sec = E.models.sd_lookup(st["data"], "variants", create=False)
+        secd = sec.value if sec is not None and sec.present is True else None
+        sers = [c for c in calls if c[0] == "serialize"]
+        cl = {"writer_does_not_fail_by_itself": True,
+              "container_validated_before_anything_is_written": bool(calls) and calls[0][0] == "validate" and calls[0][1] is st["cont"],
+              "fresh_variants_section_created": isinstance(secd, SymDict)}
+        if wit and wit[-1][0] == "all" and wit[-1][1] is not None:
+            w = wit[-1][1]
+            child = [e[2] for e in st["table"].known if e[0] is w and e[1] is True]
+            cl["arbitrary_top_level_variant_written_into_the_section"] = len(sers) == 1 and bool(child) and sers[0][1] is child[0] and \
+                len(sers[0][2]) == 1 and sers[0][2][0] is secd
+        else:
+            cl["arbitrary_top_level_variant_written_into_the_section"] = bool(wit) and wit[-1][0] == "all" and len(sers) == 0
+        return cl
+
+    def concretise(self, model, st):
+        return None
+
+    def native_eval(self, inputs):
+        raise NotImplementedError
 
 class GetItem(Contract):
     """ComposeInfo[uid] / Variant[id] on a well-formed forest top -> child -> grandchild with symbolic ids: every variant is found from the
@@ -301,7 +372,7 @@ class GetItem(Contract):
 
 
 def contracts(src, T):
-    return [VariantAddAny(src, T, "Variants"), VariantAddAny(src, T, "Variant"),
+    return [VariantAddAny(src, T, "Variants"), VariantAddAny(src, T, "Variant"), VariantsWriteAny(src, T),
             VariantAdd(src, T, "Variants", 0), VariantAdd(src, T, "Variants", 1), VariantAdd(src, T, "Variant", 0), VariantAdd(src, T, "Variant", 1),
             GetItem(src, T)]
 
@@ -890,7 +961,7 @@ class GetVariants(Contract):
 
 
 def contracts(src, T):          # noqa: F811
-    return [VariantAddAny(src, T, "Variants"), VariantAddAny(src, T, "Variant"),
+    return [VariantAddAny(src, T, "Variants"), VariantAddAny(src, T, "Variant"), VariantsWriteAny(src, T),
             VariantAdd(src, T, "Variants", 0), VariantAdd(src, T, "Variants", 1), VariantAdd(src, T, "Variant", 0), VariantAdd(src, T, "Variant", 1),
             GetItem(src, T), ForestRoundTrip(src, T, False), ForestRoundTrip(src, T, True)] + \
         [VariantReaderValid(src, T, "record", k) for k in VARIANT_RECORD_FIELDS] + \
